@@ -327,6 +327,46 @@ Definition c08_step_ok (e : epoch) (hist : list pstep) (st : pstep) : bool :=
      | _, _ => true
      end.
 
+(* ---------- C18 oracle: standstill recovery bundle ---------- *)
+Definition cert_mem (c : cert) (l : list cert) : bool := existsb (cert_eqb c) l.
+Definition vote_mem (v : vote) (l : list vote) : bool := existsb (vote_eqb v) l.
+Fixpoint feed_certs (e : epoch) (p : pool) (cs : list cert) : pool :=
+  match cs with
+  | [] => p
+  | c :: t => let '(p', _, _) := pool_step e p (OpCert c) in feed_certs e p' t
+  end.
+Definition c18_step_ok (e : epoch) (hist : list pstep) (st : pstep) : bool :=
+  match sp_op st with
+  | OpStandstill =>
+    match sp_res st, sp_events st with
+    | RVerdict _, [EStandstill s cs vs] =>
+      let fin := ob_finalized (sp_obs st) in
+      let held := all_certs hist in
+      let mine := filter (fun v => (v_signer v =? own e) && (fin <? v_slot v)) (accepted_votes hist) in
+      (s =? fin + 1)
+      (* certificates proving the highest finalized slot *)
+      && ((fin =? 0)
+          || existsb (fun c => (c_slot c =? fin) && (ctag (c_kind c) =? 3)) cs
+          || (existsb (fun c => (c_slot c =? fin) && (ctag (c_kind c) =? 4)) cs
+              && existsb (fun c => (c_slot c =? fin) && (ctag (c_kind c) =? 0)) cs))
+      (* every certificate held for later slots, nothing the node does not hold, nothing older *)
+      && forallb (fun c => negb (fin <? c_slot c) || cert_mem c cs) held
+      && forallb (fun c => cert_mem c held && (fin <=? c_slot c)) cs
+      (* exactly the own votes for later slots *)
+      && forallb (fun v => vote_mem v vs) mine
+      && forallb (fun v => vote_mem v mine) vs
+      (* sufficiency: a fresh node fed only the bundle reaches the same finalized slot and the same
+         ready parents for every later window *)
+      && (let p2 := feed_certs e pool_init cs in
+          (finalized_slot p2 =? fin)
+          && forallb (fun sl => (fst sl <=? fin)
+                                || list_eqb bid_eqb (bid_sort (pt_parents_ready (p_prt p2) (fst sl))) (snd sl))
+                     (ob_parents_ready (sp_obs st)))
+    | _, _ => false            (* includes RPanic: recovery must be safe in every state *)
+    end
+  | _ => true
+  end.
+
 (* ---------- runner ---------- *)
 Definition queried (st : pstep) : list slot := map fst (ob_parents_ready (sp_obs st)).
 
@@ -334,13 +374,17 @@ Definition flag (b : bool) (f : N) : N := if b then f else 0.
 
 (* selector: which property's oracle is evaluated on the implementation trace *)
 Definition oracle_ok (sel : N) (e : epoch) (hist : list pstep) (st : pstep) : bool :=
-  match sp_res st with RPanic => true | _ =>    (* panics are C10's subject; partial outputs are not judged *)
+  match sp_res st, sel, sp_op st with
+  | RPanic, 18, OpStandstill => false           (* recovery must never panic *)
+  | RPanic, _, _ => true                        (* other panics are C10's subject; partial outputs are not judged *)
+  | _, _, _ =>
   match sel with
   | 3 => c03_step_ok e hist st
   | 4 => c04_step_ok hist st
   | 6 => c06_step_ok e hist st
   | 7 => c07_step_ok e hist st
   | 8 => c08_step_ok e hist st
+  | 18 => c18_step_ok e hist st
   | _ => true
   end end.
 
